@@ -193,14 +193,7 @@ func bytesAt(buf []byte, o int, val []byte) bool {
 // wfBR: a BufferReader's position lies inside its buffer.
 func wfBR(r *BufferReader) bool { return r != nil && 0 <= r.pos && r.pos <= len(r.buf) }
 
-// wfWR: a WireReader's prefix-sum table matches its segments and (seg, pos) is a valid cursor.
-func wfWR(r *WireReader) bool {
-	return r != nil && len(r.accSz) == len(r.wire)+1 && r.accSz[0] == 0 &&
-		forallIn(0, len(r.wire), func(i int) bool { return r.accSz[i+1] == r.accSz[i]+len(r.wire[i]) }) &&
-		0 <= r.seg && r.seg <= len(r.wire) && 0 <= r.pos &&
-		implies(r.seg < len(r.wire), r.pos <= len(r.wire[r.seg])) &&
-		implies(r.seg == len(r.wire), r.pos == 0)
-}
+// wfWR (representation invariant of the segmented reader) and the contracts of WireReader: zz_verif_wire.go
 
 // rdWf / rdPos / rdLen: the same notions for a reader behind an interface (closed over the two
 // implementations in this package).
@@ -297,66 +290,6 @@ func rdLen(r io.ByteReader) int {
 
 //@ func NewBufferReader
 //@   ensures wfBR(result) && fresh(result) && result.pos == 0 && sameSlice(result.buf, buf)
-
-//@ func (*WireReader).nextSeg
-//@   requires wfWR(r)
-//@   modifies r.seg, r.pos
-//@   ensures wfWR(r) && result == (r.seg < len(r.wire))
-//@   ensures r.accSz[r.seg]+r.pos == old(r.accSz[r.seg]+r.pos)
-
-//@ func (*WireReader).ReadByte
-//@   requires wfWR(r)
-//@   modifies r.seg, r.pos
-//@   ensures wfWR(r)
-//@   ensures result1 == nil ==> r.accSz[r.seg]+r.pos == old(r.accSz[r.seg]+r.pos)+1
-//@   ensures result1 != nil ==> result1 == io.EOF && r.accSz[r.seg]+r.pos == old(r.accSz[r.seg]+r.pos)
-
-//@ func (*WireReader).Read
-//@   requires wfWR(r)
-//@   modifies r.seg, r.pos, b[*]
-//@   ensures wfWR(r) && 0 <= result0 && result0 <= len(b)
-
-//@ func (*WireReader).UnreadByte
-//@   requires wfWR(r)
-//@   modifies r.seg, r.pos
-//@   ensures wfWR(r)
-
-//@ func (*WireReader).ReadWire
-//@   requires wfWR(r)
-//@   modifies r.seg, r.pos
-//@   ensures wfWR(r)
-
-//@ func (*WireReader).ReadBuf
-//@   requires wfWR(r)
-//@   modifies r.seg, r.pos
-//@   ensures wfWR(r)
-//@   ensures result1 == nil ==> len(result0) == l
-
-//@ func (*WireReader).Pos
-//@   requires wfWR(r)
-//@   ensures result == r.accSz[r.seg]+r.pos
-
-//@ func (*WireReader).Length
-//@   requires wfWR(r)
-//@   ensures result == r.accSz[len(r.wire)]
-
-//@ func (*WireReader).Range
-//@   requires wfWR(r)
-
-//@ func (*WireReader).Skip
-//@   requires wfWR(r)
-//@   modifies r.seg, r.pos
-//@   ensures wfWR(r)
-
-//@ func (*WireReader).Delegate
-//@   requires wfWR(r)
-//@   modifies r.seg, r.pos
-//@   ensures wfWR(r) && rdWf(result)
-
-//@ func NewWireReader
-//@   ensures wfWR(result) && fresh(result) && result.seg == 0 && result.pos == 0 && sameSlice(result.wire, w)
-//@   loop 1 invariant 0 <= i && i <= len(w) && len(accSz) == len(w)+1 && accSz[0] == 0 && fresh(accSz)
-//@   loop 1 invariant forallIn(0, i, func(j int) bool { return accSz[j+1] == accSz[j]+len(w[j]) })
 
 // ---------------------------------------------------------------------------------------
 // name_component.go / name_pattern.go — component and name encoders
